@@ -5,7 +5,7 @@ mutually non-commuting (14,2,14,2) tensors keyed by the recipe (and counting cal
 `recipes.create`, `managed.solve` loop, inventories and `operators.retrieve/join` run unchanged.
 (b) probe mode: the real parts through the S2 moment probe (non-commuting singlet physics).
 Oracle: (1) the archive's parts are exactly those named by an independent path builder,
-(2) each was computed exactly once, (3) every stored operator equals the product of the archived
+(2) each was computed exactly once and is stored as exactly one header + one array file, (3) every stored operator equals the product of the archived
 parts re-read from disk, later steps to the left, (error tensors are measured but not judged: not part of the statement).
 """
 
@@ -23,8 +23,9 @@ LEVEL = "exploration"
 TECHNIQUE = "exhaustive enumeration of (matching-scale layout, origin, target set) through the real runner with stubbed part providers; product recomputed from the archived parts"
 LEVEL_TEXT = (
     "all origins x all single targets and target pairs (thorough: 5 wall layouts, all pairs, triples) on a scale lattice placed "
-    "below/on/between/above the matching scales are run through the real recipes/managed/operators code; stored operators are "
-    "compared with the independently ordered product of the stored parts"
+    "below/on/between/above the matching scales (plus scales with 17-digit squares, two targets one ulp apart, repeated targets, "
+    "4-5 target lists) are run through the real recipes/managed/operators code; stored operators are "
+    "compared with the independently ordered product of the stored parts; part and operator files are counted"
 )
 LEVEL_NOTE = "scales restricted to the lattice; parts are synthetic non-commuting tensors (stub mode) or real moment matrices (probe mode); tensordot trusted"
 FLOOR_NONTRIVIAL = 100
@@ -41,6 +42,12 @@ LAYOUTS = {
 SCALES = [2.0, 3.0, 4.0, 5.0, 6.0, 7.0, 8.0]
 NFS = [3, 4, 5, 6]
 REDUCED = [(2.0, 3), (4.0, 4), (6.0, 5), (8.0, 6), (3.0, 3), (3.0, 4), (5.0, 5), (7.0, 5), (8.0, 3), (2.0, 6), (6.0, 4), (4.0, 5)]
+# scales whose squares are NOT exactly representable short decimals (17 significant digits in the header files), and two
+# neighbouring floats (1 ulp apart, their squares differ in the last bits): part identity goes through float hashing (file names)
+# and through the yaml round trip of the headers
+NONDY = [1.65, 10.0 / 3.0, 6.1, 6.1000000000000005, 7.3]
+assert NONDY[2] < NONDY[3] and NONDY[2] ** 2 < NONDY[3] ** 2
+NONDY_POINTS = [(1.65, 3), (1.65, 4), (10.0 / 3.0, 4), (10.0 / 3.0, 5), (6.1, 5), (6.1000000000000005, 5), (6.1, 4), (7.3, 6), (7.3, 3)]
 
 
 def _stub_tensor(fields, err=False):
@@ -49,6 +56,9 @@ def _stub_tensor(fields, err=False):
     for i, f in enumerate(fields):
         v = float(f) if not (isinstance(f, float) and math.isinf(f)) else 1234.5
         c += (i + 1.37) * v
+        # the low 12 bits of the mantissa enter at O(1): parts whose scales differ by one ulp carry visibly different
+        # numbers (zero for the integer / dyadic lattice scales)
+        c += 0.618 * (int(math.frexp(v)[0] * 2.0**53) % 4096)
     idx = np.arange(14 * 2 * 14 * 2, dtype=float).reshape(14, 2, 14, 2)
     a = np.cos(0.37 * c + 0.11 * idx) + 0.5 * np.sin(0.05 * c * (idx % 29) + 0.3)
     if err:
@@ -93,7 +103,8 @@ def evaluate(case):
         if mode == "stub":
             def evolve(eko_, recipe):
                 calls.append(("evo", recipe.origin, recipe.target, (recipe.nf, bool(recipe.cliff))))
-                f = (recipe.origin, recipe.target, recipe.nf)
+                # intermediate (cliff) and final variants of one segment are different parts: different numbers
+                f = (recipe.origin, recipe.target, recipe.nf, 11.0 if recipe.cliff else 0.0)
                 return Operator(_stub_tensor(f), _stub_tensor(f, err=True))
 
             def match(eko_, recipe):
@@ -149,21 +160,36 @@ def evaluate(case):
             res.fail(f"solve/{mode}/parts-computed-set", f"{where}: computed {sorted(set(cnt) - exp_norm)} unexpectedly, missing {sorted(exp_norm - set(cnt))}")
         # (1) archive content
         stored = {}
-        with EKO.read(path) as e:
-            e.parts.sync()
-            e.parts_matching.sync()
-            nstored = 0
-            for h in list(e.parts):
-                stored[("evo", float(h.origin), float(h.target), (h.nf, bool(h.cliff)))] = e.parts[h]
-                nstored += 1
-            for h in list(e.parts_matching):
-                stored[("match", float(h.scale), h.hq, h.inverse)] = e.parts_matching[h]
-                nstored += 1
-            if nstored != len(stored):
-                res.fail(f"solve/{mode}/part-stored-twice", f"{where}: {nstored} part files for {len(stored)} distinct parts")
-            if set(stored) != exp_norm:
-                res.fail(f"solve/{mode}/parts-stored-set", f"{where}: stored {sorted(set(stored) - exp_norm)} unexpectedly, missing {sorted(exp_norm - set(stored))}")
-            got = {ep: (o.operator.copy(), None if o.error is None else o.error.copy()) for ep, o in e.items()}
+        try:
+            with EKO.read(path) as e:
+                e.parts.sync()
+                e.parts_matching.sync()
+                nstored = 0
+                for h in list(e.parts):
+                    stored[("evo", float(h.origin), float(h.target), (h.nf, bool(h.cliff)))] = e.parts[h]
+                    nstored += 1
+                for h in list(e.parts_matching):
+                    stored[("match", float(h.scale), h.hq, h.inverse)] = e.parts_matching[h]
+                    nstored += 1
+                if nstored != len(stored):
+                    res.fail(f"solve/{mode}/part-stored-twice", f"{where}: {nstored} part files for {len(stored)} distinct parts")
+                # "stored exactly once", on the files themselves: one header file and one array file per distinct part,
+                # one pair per distinct target in operators/, nothing else
+                n_evo = sum(1 for k in stored if k[0] == "evo")
+                n_match = len(stored) - n_evo
+                n_tgt = len({(float(t[0] ** 2), t[1]) for t in case["targets"]})
+                for inv, n, what in ((e.parts, n_evo, "parts"), (e.parts_matching, n_match, "parts/matching"), (e.operators, n_tgt, "operators")):
+                    names = sorted(q.name for q in inv.path.iterdir() if q.is_file())
+                    heads = [q for q in names if q.endswith(".yaml")]
+                    arrs = [q for q in names if q.endswith(".npy.lz4") or q.endswith(".npz.lz4")]
+                    if len(heads) != n or len(arrs) != n or len(names) != 2 * n or {q.split(".")[0] for q in heads} != {q.split(".")[0] for q in arrs}:
+                        res.fail(f"solve/{mode}/part-stored-twice", f"{where}: directory {what} holds {len(heads)} header files and {len(arrs)} array files ({names}) for {n} distinct items")
+                if set(stored) != exp_norm:
+                    res.fail(f"solve/{mode}/parts-stored-set", f"{where}: stored {sorted(set(stored) - exp_norm)} unexpectedly, missing {sorted(exp_norm - set(stored))}")
+                got = {ep: (o.operator.copy(), None if o.error is None else o.error.copy()) for ep, o in e.items()}
+        except Exception as e_:  # noqa - the archive written by the real runner must be readable with its own reader
+            res.fail(f"solve/{mode}/archive-unreadable/{type(e_).__name__}", f"{where}: reading parts / operators back from the archive raised {type(e_).__name__}: {str(e_)[:300]}")
+            return res
         if res.fails:
             return res
         # (3) ordered product, later steps to the left
@@ -230,6 +256,35 @@ def run(ctx):
             for o in origins[::3]:
                 for trip in itertools.combinations(REDUCED, 3):
                     cases.append(dict(walls=walls, origin=list(o), targets=[list(x) for x in trip]))
+    if not ctx.thorough():
+        # coincident matching scales (zero-length intermediate segments, two / three matchings at one scale): singles over the
+        # reduced alphabet (thorough: all 28 x 28 singles and pairs above)
+        for lay in ("cc", "ccc"):
+            for o in REDUCED:
+                for t in REDUCED:
+                    cases.append(dict(walls=LAYOUTS[lay], origin=list(o), targets=[list(t)]))
+    dist = LAYOUTS["distinct"]
+    # scales with 17-digit squares and two scales 1 ulp apart: every single with a non-dyadic end, all pairs of non-dyadic targets
+    nd_origins = NONDY_POINTS + [(2.0, 3), (6.0, 5), (8.0, 6)]
+    nd_targets = NONDY_POINTS + REDUCED[:6]
+    n_nd = 0
+    for o in nd_origins:
+        for t in nd_targets:
+            if o in NONDY_POINTS or t in NONDY_POINTS:
+                cases.append(dict(walls=dist, origin=list(o), targets=[list(t)]))
+                n_nd += 1
+    for o in nd_origins[:: (1 if ctx.thorough() else 2)]:
+        for a, b in itertools.combinations(NONDY_POINTS, 2):
+            cases.append(dict(walls=dist, origin=list(o), targets=[list(a), list(b)]))
+            n_nd += 1
+    # the same target listed twice (one operator, parts once), and lists of 4 and 5 targets
+    for io, o in enumerate(origins):
+        for n in (4, 5):
+            cases.append(dict(walls=dist, origin=list(o), targets=[list(REDUCED[(io + 5 * j) % 12]) for j in range(n)]))
+    for o in REDUCED:
+        for t in REDUCED[:4]:
+            cases.append(dict(walls=dist, origin=list(o), targets=[list(t), list(t)]))
+            cases.append(dict(walls=dist, origin=list(o), targets=[list(t), list(REDUCED[7]), list(t)]))
     # probe mode: real parts at NLO / NNLO on a physical layout (masses^2 = 4, 20.25, 29953)
     phys = [2.0, 4.5, 100.0]
     pscales = [1.5, 2.0, 3.0, 4.5, 7.0]
@@ -246,6 +301,12 @@ def run(ctx):
     ctx.rule = (
         f"layouts {layouts} x 28 origins (7 scales below/on/between/above walls x nf0 3-6) x (all 28 single targets + all pairs "
         f"{'of the 28 targets' if ctx.thorough() else 'of a 12-target reduced alphabet'}) in stub mode; NLO/NNLO probe-mode cards from 4 origins; "
-        "non-trivial = path of more than one part or more than one target"
+        f"{'' if ctx.thorough() else 'singles of the coincident-wall layouts cc, ccc over the 12 x 12 reduced alphabet; '}"
+        f"{n_nd} singles / pairs with non-dyadic scales (17-digit squares, two targets 1 ulp apart); 4- and 5-target lists from every origin; "
+        "a target listed twice; non-trivial = path of more than one part or more than one target"
     )
-    ctx.assumptions += ["a part is identified by its segment and by being intermediate or final (the two differ by the scale-variation factor)"]
+    ctx.assumptions += [
+        "a part is identified by its segment and by being intermediate or final (the two differ by the scale-variation factor)",
+        "'stored exactly once' is decided on the files of the archive: one header and one array file per distinct part / target and nothing else",
+        "a target listed twice in the card is one target (one stored operator)",
+    ]
